@@ -868,7 +868,7 @@ func AdoptSession(p Persistence, c *Config) (client *Client, warn []error, fatal
 	// — MQTT Version 3.1.1, conformance statement MQTT-4.4.0-1
 	var publishAtLeastOnceKeys, publishExactlyOnceKeys, publishReleaseKeys []uint
 	for _, key := range keys {
-		if key == clientIDKey || key&remoteIDKeyFlag != 0 {
+		if key == clientIDKey {
 			continue
 		}
 		value, err := p.Load(key)
@@ -885,6 +885,12 @@ func AdoptSession(p Persistence, c *Config) (client *Client, warn []error, fatal
 				warn = append(warn, fmt.Errorf("%w; record %#x deleted", err, key))
 			}
 
+			continue
+		}
+		if key&remoteIDKeyFlag != 0 {
+			// Inbound markers need no more than the integrity check.
+			// A corrupt one would fail reception of its packet
+			// identifier over and over again.
 			continue
 		}
 
